@@ -43,7 +43,7 @@ _CH_STUBS = _C08_STUBS + ["StreamsManagerBase::wake_stream -> no-op (delivery-on
 PROPS["C08"] = {
     "engine": "kani-real + mir-bmc", "technique": _M_TECH,
     "m": [M("c08_reserve_vs_consumer_n2_k0"), M("c08_reserve_vs_consumer_n2_k1", "thorough"), M("c08_two_reservers_vs_consumer_n2_k0", "thorough"), M("c08_reserve_vs_consumer_n4_k3", "thorough")],
-    "k_budget": {"quick": {"jobs": 2, "timeout_s": 1200, "mem_gb": 14}, "thorough": {"jobs": 3, "timeout_s": 10800, "mem_gb": 30}},
+    "k_budget": {"quick": {"jobs": 2, "timeout_s": 1200, "mem_gb": 14}, "thorough": {"jobs": 3, "timeout_s": 2400, "mem_gb": 30}},
     "bounds": "engine K: solver-chosen scripts of L operations out of {reserve+fill(any u32), send-reserved(oldest), send-reserved(newest, out of order), cancel(newest), plain send(any u32), receive}, origin any u32, then resolve all reservations (solver picks send/cancel), drain, refill BUFFER_SIZE, one extra send must be rejected; L=5,N=2 (quick) / L=6,N=4 (thorough)",
     "outside": "payloads with destructors (excluded by the statement); BUFFER_SIZE > 4; scripts longer than L; interleavings with a concurrently polling consumer are covered by engine M queries only within their thread/step bounds",
     "functions": ["AtomicMove::{leak_slot_internal,try_publish_leaked_internal_index,try_unleak_slot_index_internal,slot_index_from_slot_ref,publish_movable,consume_movable}",
@@ -83,7 +83,7 @@ PROPS["C01"] = {
         H("c01::c01_uni_zero_copy_full_sync_n2_l3", tier="thorough", inst="ChannelUniZeroCopyFullSync<u32,2,1>", bounds="L=3", stubs=_CH_STUBS, group="g2"),
         H("c01::c01_uni_move_crossbeam_n2_l3", tier="thorough", inst="ChannelUniMoveCrossbeam<u32,2,1>", bounds="L=3", stubs=_CH_STUBS, group="g2"),
     ],
-    "k_budget": {"quick": {"jobs": 2, "timeout_s": 1200, "mem_gb": 14}, "thorough": {"jobs": 4, "timeout_s": 10800, "mem_gb": 30}},
+    "k_budget": {"quick": {"jobs": 2, "timeout_s": 1200, "mem_gb": 14}, "thorough": {"jobs": 4, "timeout_s": 2400, "mem_gb": 30}},
 }
 PROPS["C02"] = {
     "engine": "mir-bmc", "technique": _M_TECH,
@@ -111,7 +111,7 @@ PROPS["C13"] = {
         H("c13::c13_bijection_p24_n4", inst="pool of 24-byte structs x4", bounds="all id pairs", stubs=_C08_STUBS),
         H("c13::c13_pool_atomic_n4_l6", tier="thorough", inst="pool of u32 x4 over AtomicMove", bounds="L=6", stubs=_C08_STUBS, group="g1"),
     ],
-    "k_budget": {"quick": {"jobs": 3, "timeout_s": 1200, "mem_gb": 14}, "thorough": {"jobs": 3, "timeout_s": 7200, "mem_gb": 30}},
+    "k_budget": {"quick": {"jobs": 3, "timeout_s": 1200, "mem_gb": 14}, "thorough": {"jobs": 3, "timeout_s": 2400, "mem_gb": 30}},
 }
 PROPS["C14"] = {
     "engine": "mir-bmc + kani-real", "technique": _M_TECH,
@@ -221,9 +221,9 @@ PROPS["C10"] = {
         H("c10::c10_recycle1_arc_crossbeam", tier="thorough", inst="ChannelMultiArcCrossbeam<u32,2,1>", stubs=_C10_CH_STUBS, ignore_failed=_DEALLOC_ARTEFACT, group="g3"),
         H("c10::c10_recycle1_ogre_arc_full_sync", tier="thorough", inst="ChannelMultiOgreArcFullSync<u32,2,1>", stubs=_C10_CH_STUBS, ignore_failed=_DEALLOC_ARTEFACT, group="g3"),
         H("c10::c10_shape_ms4_ccdcdc_wrap", tier="thorough", inst="StreamsManagerBase<4>", bounds="6 calls; origin 2^32-2", stubs=_C10_STUBS, ignore_failed=_DEALLOC_ARTEFACT, group="g2"),
-        H("c10::c10_books_ms2_l4", tier="thorough", inst="StreamsManagerBase<2>", bounds="L=4 solver-chosen operations, origin ANY u32 (expensive)", stubs=_C10_STUBS, ignore_failed=_DEALLOC_ARTEFACT, group="g4", timeout_s=7200, mem_gb=40, jobs=1),
+        H("c10::c10_books_ms2_l4", tier="thorough", inst="StreamsManagerBase<2>", bounds="L=4 solver-chosen operations, origin ANY u32 (expensive)", stubs=_C10_STUBS, ignore_failed=_DEALLOC_ARTEFACT, group="g4", timeout_s=2400, mem_gb=40, jobs=1),
     ],
-    "k_budget": {"quick": {"jobs": 5, "timeout_s": 1500, "mem_gb": 16}, "thorough": {"jobs": 3, "timeout_s": 7200, "mem_gb": 30}},
+    "k_budget": {"quick": {"jobs": 5, "timeout_s": 1500, "mem_gb": 16}, "thorough": {"jobs": 3, "timeout_s": 2400, "mem_gb": 30}},
 }
 PROPS["C03"] = {
     "engine": "mir-bmc + kani-real", "technique": _M_TECH,
@@ -237,7 +237,7 @@ PROPS["C03"] = {
         H("c03::c03_same_allocation_arc_atomic", tier="thorough", inst="ChannelMultiArcAtomic<u32,2,2>", bounds="two listeners, one send (any u32), both take it; origin 0", oracle="both listeners yield the sent payload from the very same allocation (Arc::ptr_eq), nothing else", stubs=_C10_CH_STUBS, ignore_failed=_DEALLOC_ARTEFACT, group="g1", mem_gb=30, jobs=1),
         H("c03::c03_same_allocation_ogre_arc_atomic", tier="thorough", inst="ChannelMultiOgreArcAtomic<u32,2,2>", bounds="same script", oracle="same data address behind both OgreArc handles", stubs=_C10_CH_STUBS, ignore_failed=_DEALLOC_ARTEFACT, group="g2", mem_gb=40, jobs=1),
     ],
-    "k_budget": {"thorough": {"jobs": 1, "timeout_s": 3600, "mem_gb": 30}},
+    "k_budget": {"thorough": {"jobs": 1, "timeout_s": 2400, "mem_gb": 30}},
 }
 PROPS["C09"] = {
     "engine": "mir-bmc", "technique": _M_TECH,
